@@ -84,7 +84,10 @@ def content_oracle(obs, x):
                          f'len {len(got)} vs {len(x.data)}, first diff at byte {i}', **mech, sym='differs'))
         ups = [u for u in s3.uploads.values() if u['label'] == x.label]
         calls = [c for c in s3.calls.values() if c['label'] == x.label]
-        if mech['mode'] == 'multipart' or ups:
+        unknown_size_short_reads = (x.kind == 'upload' and x.spec.get('src') == 'nonseekable' and x.spec.get('src_caps')
+                                    and 'provide_size' not in (x.spec.get('subs') or [{}])[0])
+        if (mech['mode'] == 'multipart' and not unknown_size_short_reads) or ups:
+            # (a stream of unknown size whose first read comes back short is legitimately sent as one PutObject)
             good = [u for u in ups if u['state'] == 'completed']
             if len(good) != 1 or sum(u['completes'] for u in ups) != 1:
                 out.append(V(f'{x.label}: multipart {x.kind} succeeded with {len(good)} completed uploads '
@@ -203,7 +206,7 @@ def counted_faults(obs, x):
     mine = [r for r in d.raised if r['key'].startswith(x.label + '/')]
     per_range = {}
     for r in mine:
-        if r['phase'] == 'body' and r['kind'] in STREAM_KINDS:
+        if is_retryable_download_fault(r):
             rng = r['key'].split('#')[0]
             per_range.setdefault(rng, []).append(r)
     counted = []
@@ -213,12 +216,22 @@ def counted_faults(obs, x):
             continue
         if 's3:AbortMultipartUpload' in k or '/fs:remove' in k or '/cb:on_done' in k:
             continue
-        if r['phase'] == 'body' and r['kind'] in STREAM_KINDS:
+        if is_retryable_download_fault(r):
             rng = k.split('#')[0]
             if len(per_range[rng]) < cfg.num_download_attempts:
                 continue
         counted.append(r)
     return counted, mine
+
+
+def is_retryable_download_fault(r):
+    """Retryable stream errors of a GetObject: a fault while the body is read, or a connection error raised by the request
+    itself (both are what num_download_attempts budgets)."""
+    if '/s3:GetObject' not in r['key']:
+        return False
+    if r['phase'] == 'body' and r['kind'] in STREAM_KINDS:
+        return True
+    return r['kind'] == 'connreset' and r['phase'] in ('before', 'after')
 
 
 def cancel_issued_before_done(obs, x):
@@ -258,7 +271,7 @@ def outcome_oracle(obs, x):
         if is_cancel and cancelled:
             pass
         elif unwrap_matches(exc, mine):
-            exhausted = [r for r in counted if r['phase'] == 'body' and r['kind'] in STREAM_KINDS]
+            exhausted = [r for r in counted if is_retryable_download_fault(r)]
             if exhausted and not any(r for r in counted if r not in exhausted):
                 if not isinstance(exc, RetriesExceededError) and not is_cancel:
                     out.append(V(f'{x.label}: retries ran out but result() raised {type(exc).__name__}, '
@@ -571,6 +584,18 @@ def cancel_oracle(obs, x, how, not_started=False, targeted=True):
             if fs and min(fs) > ce[0]['n']:
                 out.append(V(f'{x.label}: the cancel call ({how}) had returned before the final task {final_task} was even started, yet the '
                              f'transfer ran on and reported success', **mech, sym='cancel-ineffective'))
+    # parts and complete need the upload id: if the cancel call returned while CreateMultipartUpload was still in flight, every
+    # dependent task decides after that and must see the cancellation, so no part / complete request may ever begin
+    ce = [e for e in obs.events if e['kind'] == 'cancel.end']
+    if ce and targeted and x.kind in ('upload', 'copy'):
+        cr = [e for e in obs.events if e['kind'] == 'api.ret' and e.get('label') == x.label and e.get('op') == 'CreateMultipartUpload']
+        cb0 = [e for e in obs.events if e['kind'] == 'api.begin' and e.get('label') == x.label and e.get('op') == 'CreateMultipartUpload']
+        if cr and cb0 and cb0[0]['n'] < ce[0]['n'] < cr[0]['n']:
+            dep = [e for e in obs.events if e['kind'] == 'api.begin' and e.get('label') == x.label
+                   and e.get('op') in ('UploadPart', 'UploadPartCopy', 'CompleteMultipartUpload')]
+            if dep:
+                out.append(V(f'{x.label}: the cancel call ({how}) returned while CreateMultipartUpload was still in flight, yet '
+                             f'{len(dep)} dependent request(s) ({dep[0]["op"]} ...) were issued afterwards', **mech, sym='dependent-request-after-cancel'))
     if not_started:
         s3 = [e for e in obs.events if e['kind'] == 'api.begin' and e.get('label') == x.label]
         if s3:
